@@ -16,7 +16,7 @@ Not decided: server histories; that the decoded rows are right (C01).
 """
 from ..inline import inline_view
 from ..mir import AnchorLost
-from ..util import bool_edges, df_of, fn_short, in_set, backward_slice, callers_keys, operand_path, path_last, switch_on, switch_edges
+from ..util import truth_edges, bool_edges, df_of, fn_short, in_set, backward_slice, callers_keys, operand_path, path_last, switch_on, switch_edges
 from .c10 import ok_sites
 from .c20 import slice_fields
 
@@ -52,11 +52,10 @@ def r1(ctx, facts):
         if not in_set(st.get(("call", c.bb)), {want}):
             good = False
     r.instance("ok-only-if-id-equal", good, "every Ok(()) of reprepare must be in the ids-equal region", b.stmt_span(oks[0][1]))
-    sws = switch_on(b, df, ("call", c.bb))
+    sws = truth_edges(b, df, ("call", c.bb))
     okerr = False
     if len(sws) == 1:
-        edges, other = switch_edges(b, sws[0])
-        tt, ff = bool_edges(b, sws[0])
+        _sw, tt, ff = sws[0]
         diff_tg = tt if want == 0 else ff
         reach = b.reachable_from(diff_tg)
         errs = [1 for x in reach for s in b.stmts(x) if s[0] == "A" and s[2][0] == "agg" and s[2][1][0] == "adt" and s[2][1][2] == "RepreparedIdChanged"]
@@ -215,15 +214,14 @@ def r2_batch(ctx, facts):
     r.instance("failed-reprepare-does-not-resend", ok, "a failed reprepare must exit, not loop", rep.span)
     # the statement to re-prepare is looked up in the list that was actually sent (the output of prepare_batch, where
     # statements with values were prepared on the fly), not in the caller's batch
-    fm = [c for c in b.calls_to("core::iter::traits::iterator::Iterator::find_map") if rep.bb in b.reachable_from(c.bb) and s.bb in b.reachable_from(c.bb)]
-    if len(fm) != 1:
-        raise AnchorLost("batch_with_consistency: expected one find_map feeding reprepare, found %d" % len(fm))
-    _, calls, _ = backward_slice(b, fm[0].args[0])
+    calls = []
+    for a_ in rep.args[1:]:
+        calls += backward_slice(b, a_, data_only=True)[1]
     from_prepared = any((x.name or "").endswith("Connection::prepare_batch") for x in calls)
     frame = [st for bb in b.live_blocks for st in b.stmts(bb) if st[0] == "A" and st[2][0] == "agg" and st[2][1][0] == "adt" and st[2][1][1].endswith("request::batch::Batch")]
     frame_ok = bool(frame) and all(any((x.name or "").endswith("Connection::prepare_batch") for x in backward_slice(b, st[2][2][0])[1]) for st in frame)
     r.instance("lookup-in-the-sent-statements", from_prepared and frame_ok,
-               "the UNPREPARED id must be searched in the statements of the batch that was sent (prepare_batch's output, also the frame's `statements`); lookup derives from prepare_batch: %s, frame derives from prepare_batch: %s" % (from_prepared, frame_ok), fm[0].span)
+               "the UNPREPARED id must be searched in the statements of the batch that was sent (prepare_batch's output, also the frame's `statements`); statement handed to reprepare derives from prepare_batch: %s, frame derives from prepare_batch: %s" % (from_prepared, frame_ok), rep.span)
     errs = [bb for bb in b.live_blocks for st in b.stmts(bb) if st[0] == "A" and st[2][0] == "agg" and st[2][1][0] == "adt" and st[2][1][2] == "RepreparedIdMissingInBatch"]
     r.instance("unknown-id-is-error", bool(errs) and all(s.bb not in b.reachable_from(e) for e in errs), "UNPREPARED for an id that is not in the batch must be an error exit", s.span)
 
